@@ -151,6 +151,47 @@ def run(ctx: Ctx, tier: str) -> Result:
     for f, n in shrink:
         res.fail(Finding("C07.INJECT", f.qname, n, f.loc(n), "the identity cache is shrunk/reset: ids derived from its size are handed out twice (two objects share one id)"))
 
+    # the identity cache of an action lives as long as its snapshot: it is assigned once, in the constructor
+    acx = p.cls("deep.processor.context.action_context.ActionContext")
+    cache_stores = []
+    for c_ in [acx] + p.subclasses.get(acx.qname, []):
+        for sf, v, _ in t.field_stores(c_, "var_cache"):
+            if (sf, v) not in cache_stores:
+                cache_stores.append((sf, v))
+    late = [(sf, v) for sf, v in cache_stores if sf.name != "__init__"]
+    if cache_stores and not late:
+        res.ok("C07.INJECT", {"action identity cache assigned only in the constructor": len(cache_stores)})
+    for sf, v in late:
+        st_ = paths.stmt_of(p, v)
+        res.fail(Finding("C07.INJECT", sf.qname, st_, sf.loc(st_),
+                         "the action's identity cache is replaced after the snapshot was collected: a deferred capture renumbers from 1 and its "
+                         "entries overwrite / duplicate the snapshot's table entries"))
+    # a table filled by an evaluation that issued ids must be handed on (its ids stay in the cache)
+    for fn in ("eval_watch", "process_capture_variable"):
+        f_ = acx.lookup(fn)
+        pvc = [c for c in t.calls_in(f_) if any(x.qname == VSP + ".process_variable" for x in t.resolve_call(c, f_).repo)]
+        if len(pvc) != 1:
+            res.fail(Finding("C07.ENTRY", f_.qname, "<process_variable>", f_.loc(), "%s evaluates its value %d times" % (fn, len(pvc))))
+            continue
+        st_ = paths.stmt_of(p, pvc[0])
+        vid_name = norm(st_.targets[0].elts[0]) if isinstance(st_, ast.Assign) and isinstance(st_.targets[0], ast.Tuple) else None
+        proc = norm(pvc[0].func.value)
+        for r in t.nodes_in(f_, ast.Return):
+            if not (paths.dominates(p, st_, r, f_) and r.lineno > st_.lineno):
+                continue
+            if g.enclosing_tries(r, f_) != g.enclosing_tries(pvc[0], f_):
+                continue
+            conds = paths.conditions(p, r, f_)
+            nothing_recorded = any(pol and vid_name and norm(c) == "%s.vid is None" % vid_name for c, pol in conds)
+            second = r.value.elts[1] if isinstance(r.value, ast.Tuple) and len(r.value.elts) == 3 else None
+            if nothing_recorded or (second is not None and norm(second) == "%s.var_lookup" % proc):
+                res.ok("C07.ENTRY", {fn: "returns the table of its evaluation", "at": f_.loc(r)})
+            else:
+                res.fail(Finding("C07.ENTRY", f_.qname, r, f_.loc(r),
+                                 "%s returns `%s` instead of the table its evaluation filled although the ids it issued stay in the action's "
+                                 "identity cache: a later watch/capture reaching one of those objects refers to an id with no entry" % (
+                                     fn, norm(second) if second is not None else norm(r.value))))
+
     # ---------------- CYCLE
     chk = [c for c in t.calls_in(pv) if isinstance(c.func, ast.Attribute) and c.func.attr == "check_id"]
     need(len(chk) == 1, "process_variable: check_id call not found")
